@@ -1678,6 +1678,10 @@ class Array:
         pipe_labels = [self._combine_leg_labels([labels[c] for c in cl]) for cl in combine_legs]
         for na, p, plab in zip(new_axes, pipes, pipe_labels):
             labels[na : na + p.nlegs] = [plab]
+        # non-combined legs inherit their label: the '?#' placeholders only serve the pipe labels
+        for ax in non_new_axes:
+            if labels[ax][0] == '?':
+                labels[ax] = None
 
         res = Array(legs, self.dtype, self.qtotal, labels)
 
